@@ -13,9 +13,10 @@
  * space [start, end) is partitioned into P contiguous stripes (one per
  * worker). Each stripe holds a single monotonic `next` cursor that advances
  * from begin toward end. Both the owner and any stealer claim chunkSize
- * iterations at a time via `next.fetch_add(chunkSize)`. A claim succeeds
- * iff the returned `prev` is < the stripe's `end` (immutable); otherwise the
- * stripe is exhausted.
+ * iterations at a time by advancing `next` with a CAS that is clamped to the
+ * stripe's `end` (so the cursor never passes `end` and cannot wrap). A claim
+ * succeeds iff the observed `prev` is < the stripe's `end` (immutable);
+ * otherwise the stripe is exhausted.
  *
  * Using a single forward-moving cursor (shared between owner and stealers)
  * keeps the correctness argument trivial: each unique `prev` value claims a
@@ -200,7 +201,18 @@ inline bool stripeClaim(
   using Wide = typename StripeCursor<IntegerT>::WideT;
   auto& s = state.stripes[stripeIdx];
   const IntegerT chunkSize = state.chunkSize;
-  Wide prev = s.next.fetch_add(static_cast<Wide>(chunkSize), std::memory_order_relaxed);
+  // Claim with a CAS that clamps the new cursor to the stripe end. An unconditional fetch_add lets
+  // every failed claim push the cursor further past `end`; for a 64-bit range ending near the index
+  // type's maximum the cursor then wraps around and later claims hand out chunks outside the range.
+  Wide prev = s.next.load(std::memory_order_relaxed);
+  while (prev < s.end) {
+    Wide left = s.end - prev;
+    Wide next = left <= static_cast<Wide>(chunkSize) ? s.end : prev + static_cast<Wide>(chunkSize);
+    if (s.next.compare_exchange_weak(
+            prev, next, std::memory_order_relaxed, std::memory_order_relaxed)) {
+      break;
+    }
+  }
   if (prev >= s.end) {
     // Stripe exhausted before this claim. Try to be the one to retire it.
     bool expected = false;
@@ -220,8 +232,9 @@ inline bool stripeClaim(
     return false;
   }
   outBegin = static_cast<IntegerT>(prev);
-  Wide endWide = prev + static_cast<Wide>(chunkSize);
-  outEnd = static_cast<IntegerT>(endWide > s.end ? s.end : endWide);
+  Wide left = s.end - prev;
+  outEnd = static_cast<IntegerT>(
+      left <= static_cast<Wide>(chunkSize) ? s.end : prev + static_cast<Wide>(chunkSize));
   return true;
 }
 
